@@ -49,6 +49,7 @@ Proof. destruct v; [lia | reflexivity | reflexivity]. Qed.
 Ltac wdrw Hw :=
   rewrite ?(wd3_float _ Hw), ?(wd3_weekday _ Hw), ?(wd3_hms _ Hw), ?(wd3_ampm _ Hw), ?(wd3_jump _ Hw).
 
+Local Arguments weekday : simpl never.
 Local Arguments firstn : simpl never.
 Local Arguments skipn : simpl never.
 
@@ -92,18 +93,18 @@ Proof.
   cbn [o_fuzzy o_fwt o_yearfirst o_info_yearfirst o_dayfirst o_info_dayfirst o_cur_year oflag o_default
        o_ignoretz o_tzinfos o_local o_nm0 o_nm1].
   unfold parse_res. rewrite Hrender, timelex_segments by exact Hwf. clear Hrender Hwf.
-  unfold rfco_segs, off_secs, zone_of_off. set (wdn := weekday (d_y d) (d_mo d) (d_d d)) in *.
+  unfold rfco_segs, off_secs, zone_of_off.
   destruct pos; cbn [app map seg_tok length of_pos of_h of_m];
   destruct Hyc as [Hyc | Hyc];
   lrun ltac:(unfold dec_gt, dec_ge, dec_lt, dec_le, frac_nonzero; cbn [fst snd existsb];
              wordrw Hm12; wdrw Hw; rewrite ?convertyear_ge100 by lia;
              rewrite ?F4; unfold T4o; rewrite ?sl_0_2, ?sk_2; fold (T4o oh om));
   try (match goal with |- context [match ?x with Z0 => _ | Zpos _ => _ | Zneg _ => _ end] => destruct x eqn:Esecs end);
-  try lia;
-  repeat (progress (sym2; rewrite ?Hloc; rewrite ?tzoffset_ok_small by lia));
+  try (exfalso; clear - Esecs Hoh Hom; lia);
+  repeat (progress (sym2; rewrite ?Hloc; rewrite ?tzoffset_ok_small by (clear - Esecs Hoh Hom; lia)));
   try (match goal with |- context [if ?c then add_weekday _ _ else _] =>
          replace c with false by (clear - Hd31; destruct (d_d d); [exfalso; lia | reflexivity | reflexivity]) end);
   repeat (progress sym2);
   try match goal with |- (if ?b then _ else _) = _ => destruct b end;
-  zeq; first [reflexivity | (repeat f_equal; lia)].
+  first [reflexivity | (repeat f_equal; clear - Esecs Hoh Hom; lia)].
 Qed.
